@@ -73,7 +73,8 @@ LG = "Obj('sempler.lganm.LGANM', p=Int, W=Arr2, means=Arr1, variances=Arr1)"
                        {'population': True, 'do_interventions': 'dict', 'shift_interventions': 'none', 'noise_interventions': 'none', 'random_state': 'none'},
                        {'population': True, 'do_interventions': 'none', 'shift_interventions': 'dict', 'noise_interventions': 'dict', 'random_state': 'none'},
                        {'population': False, 'do_interventions': 'dict', 'shift_interventions': 'none', 'noise_interventions': 'dict', 'random_state': 'int'},
-                       {'population': False, 'do_interventions': 'none', 'shift_interventions': 'none', 'noise_interventions': 'none', 'random_state': 'none'}])
+                       {'population': False, 'do_interventions': 'none', 'shift_interventions': 'none', 'noise_interventions': 'none', 'random_state': 'none'}],
+          self_from_init=True, init_case={'means': 'arr1', 'variances': 'arr1', 'random_state': 'none'})
 def lganm_sample(self: Obj('sempler.lganm.LGANM', p=Int, W=Arr2, means=Arr1, variances=Arr1), n: Int):
     requires(lganm_ok(self), n >= 0, keys_ok(do_interventions, self.p), keys_ok(shift_interventions, self.p), keys_ok(noise_interventions, self.p))
     let(Wp=intervened_W(self, do_interventions),
